@@ -179,7 +179,7 @@ def run(rep, tier, seed, only=None):
         # second pass over the whole table with another value stream (VERIF_SEED dependent)
         probes = probes + [dict(p, id=p["id"] + "@s2", seed=90001 + 7 * i + int(seed))
                            for i, p in enumerate(probes)]
-    probes = probes + [W.TABLE_PROBE]
+    probes = probes + list(getattr(W, "TABLE_PROBES", [W.TABLE_PROBE]))
     canary_probe = {"id": "canary-native", "entry": "<canary>", "opts": "", "tier": "quick",
                     "setup": "x = A([1.0, 2.0, 3.0])\nm = np.ma.array(A([1.0, np.nan]), mask=[False, False])\n",
                     "call": "y = np.asarray(x, dtype=np.double); y += 1.0\nm2 = np.ma.array(m); m2.mask = np.isnan(m2)\n"}
@@ -375,7 +375,7 @@ def run(rep, tier, seed, only=None):
             skipped2.append(p["id"])      # value-dependent failure of the call itself (e.g. optimiser)
             continue
         if r["error"] and not r["changed"]:
-            st = FAILED if p["id"] == "alias-table" else UNDECIDED
+            st = FAILED if p["entry"] == "<alias-table>" else UNDECIDED
             rep.add(Obligation(oid, st, backend="native", time_s=t_pr / max(1, len(probes)),
                                detail="native probe raised: " + r["error"],
                                witness={"witness_class": "probe-error", "probe": p["id"]},
